@@ -4,7 +4,8 @@ PROPS["C09"] = {
     "technique": ("property-based testing (rapid) of operation histories against a sequential model whose per-entry oracle is "
                   "single-signature verification (itself compared with the math/big reference predicate on sampled steps); "
                   "hand-signed pools with torsion-laden / small-order / non-canonical keys and nonces; in-package structural "
-                  "invariants of the LRU cache against the sequential model verifref.LRU"),
+                  "invariants of the LRU cache against the sequential model verifref.LRU; thorough tier adds native coverage-guided fuzzing "
+                  "of the same generators/oracles (rapid.MakeFuzz)"),
     "level_text": ("Generated-history search. Batch: histories over {Add, AddWithOptions, AddExpanded, AddExpandedWithOptions (incl. nil key), "
                    "ForceNoPublicKeyExpansion, Reset, Verify, VerifyBatchOnly} with batch sizes steered to 0, 1, 2, 93/94/95/96 (key-expansion and "
                    "Straus/Pippenger limits), 249/250/251 and 399/400/401+ (Pippenger window changes), repeated verification without Reset and reuse "
@@ -33,12 +34,14 @@ PROPS["C09"] = {
             "tests": {
                 "TestC09Batch": T(1600, 60000, shards={"quick": 8, "thorough": 16}),
                 "TestC09Expanded": T(1200, 30000, shards={"quick": 4, "thorough": 16}),
+                "FuzzC09Batch": FUZZ(90, configs=["default"], workers=4),
             },
         },
         {
             "pkg": "primitives/ed25519/extra/cache", "configs": ALL4,
             "tests": {
                 "TestC09Cache": T(1600, 60000, shards={"quick": 4, "thorough": 16}),
+                "FuzzC09Cache": FUZZ(90, configs=["default"], workers=4),
             },
         },
     ],
